@@ -1,7 +1,7 @@
 (* C04 -- property theorems only. `_refuted` theorems are facts about the faithful model of the CURRENT code
    (the correspondence check replays their witnesses on the implementation); see known_findings.json. *)
-From Coq Require Import ZArith List Bool.
-From WNTRV Require Import Lib.Sched C04.Proofs C04.AtTime C04.RuleGe C04.Prio C04.Window C04.AtTimeSet.
+From Coq Require Import ZArith List Bool Sorted.
+From WNTRV Require Import Lib.Sched C04.Proofs C04.AtTime C04.RuleGe C04.Prio C04.Window C04.AtTimeSet C04.AtTimeAll C04.RuleSet C04.Mixed.
 Import ListNotations.
 Local Open Scope Z_scope.
 
@@ -138,6 +138,35 @@ Example C04_at_time_set_run :
   = Some [(0, [true; true]); (1000, [false; true]); (1700, [false; false]); (2500, [true; false]); (3600, [true; false]); (7200, [true; false])].
 Proof. vm_compute. reflexivity. Qed.
 
+(* ... and with COINCIDING instants allowed: ANY list of AT TIME controls (tagged with their registration numbers, increasing), any
+   targets, values, priorities and grids, no rules.  `is_W T st`: every link shows the value of the control on it that wins among those with
+   instant <= T -- latest instant first, then highest priority, then last registered (lex3) -- or its initial value if there is none.  This is
+   the complete semantics of simple time controls: same statements as above (every solved step, no changing instant stepped over, the run
+   exists and ends at the duration).  The proof shows that the two stable sorts produce THE list sorted by (instant, priority,
+   registration), splits it into groups of equal instants as run_same_backtrack does, and follows the presolve loop group by group. *)
+Theorem C04_at_time_all_exact : forall cs hs rs sc D st0, 0 < rs -> 0 < hs -> (forall x, In x cs -> 0 < x_thr x) -> StronglySorted R_id cs ->
+  forall D' f tr sf, steps f (ga cs hs rs sc D st0) D' (init_state (ga cs hs rs sc D st0)) = Some (tr, sf) ->
+  (forall e, In e tr -> is_W cs st0 (fst e) (snd e)) /\
+  (forall x, In x cs -> x_thr x <= s_prev sf ->
+     In (x_thr x) (map fst tr) \/ exists st, (st = st0 \/ In st (map snd tr)) /\ is_W cs st0 (x_thr x) st).
+Proof. intros cs hs rs sc D st0 H1 H2 H3 H4 D' f tr sf H. exact (at_time_all_exact cs hs rs sc D st0 H1 H2 H3 H4 D' f tr sf H). Qed.
+Theorem C04_at_time_all_total : forall cs hs rs sc D st0, 0 < rs -> 0 < hs -> (forall x, In x cs -> 0 < x_thr x) -> StronglySorted R_id cs ->
+  0 < D -> D mod hs = 0 ->
+  exists f tr sf, steps f (ga cs hs rs sc D st0) D (init_state (ga cs hs rs sc D st0)) = Some (tr, sf) /\ s_prev sf = D /\
+    (forall e, In e tr -> is_W cs st0 (fst e) (snd e)) /\
+    (forall x, In x cs -> x_thr x <= D ->
+       In (x_thr x) (map fst tr) \/ exists st, (st = st0 \/ In st (map snd tr)) /\ is_W cs st0 (x_thr x) st).
+Proof. intros cs hs rs sc D st0 H1 H2 H3 H4 H5 H6. exact (at_time_all_total cs hs rs sc D st0 H1 H2 H3 H4 H5 H6). Qed.
+(* non-vacuity: three controls on link 0 at the SAME instant 1000 (priorities 3, 5, 3: the priority-5 "close" wins although it is neither the
+   first nor the last registered), then two of equal priority at 5000 (the later registered "close" wins) *)
+Example C04_at_time_all_run :
+  let c := fun th p v => {| a_thr := th; a_prio := p; a_link := 0%nat; a_val := v |} in
+  let cs := [(0%nat, c 1000 3 true); (1%nat, c 1000 5 false); (2%nat, c 1000 3 true); (3%nat, c 5000 3 true); (4%nat, c 5000 3 false);
+             (5%nat, c 3000 0 true)] in
+  option_map fst (steps 20 (ga cs 3600 360 0 7200 [true]) 7200 (init_state (ga cs 3600 360 0 7200 [true])))
+  = Some [(0, [true]); (1000, [false]); (3000, [true]); (3600, [true]); (5000, [false]); (7200, [false])].
+Proof. vm_compute. reflexivity. Qed.
+
 (* a rule IF SYSTEM TIME >= thr (thr > 0), for EVERY threshold, grid and duration: it acts at J * rule_step, the first multiple of the
    rule step that is >= thr (J = ceil(thr / rule_step)); a step is solved there -- also inside a hydraulic step --, nothing changes before
    and the value is kept after *)
@@ -154,6 +183,65 @@ Theorem C04_rules_on_positive_grid_refuted :
   first_closed (run (mk [] [{| r_cond := CSim Rge 0 0; r_prio := 3; r_then := [(0%nat, false)]; r_else := [] |}])) = Some 0.
 Proof. vm_compute. reflexivity. Qed.
 
+(* ANY set of rules IF SYSTEM TIME >= thr THEN link := v (thresholds > 0, any targets, values, priorities; no simple controls): `is_R K st` --
+   every link shows the value of the rule on it that wins among those with threshold <= K (highest priority, then last registered), or its
+   initial value.  Every solved step satisfies it for K = the last multiple of the rule step that is <= its time (rules are evaluated at the
+   multiples of the rule step and nowhere else); every rule instant the run has passed is a solved step, unless the rules produce there the
+   statuses an already solved step (or the initial state) shows; and the run exists and ends at the duration. *)
+Theorem C04_rule_set_exact : forall cs hs rs sc D st0, 0 < rs -> 0 < hs -> (forall x, In x cs -> 0 < x_thr x) -> StronglySorted R_id cs ->
+  forall D' f tr sf, steps f (gr cs hs rs sc D st0) D' (init_state (gr cs hs rs sc D st0)) = Some (tr, sf) ->
+  (forall e, In e tr -> is_R cs st0 (fst e / rs * rs) (snd e)) /\
+  (forall i, 0 <= i -> i * rs <= s_prev sf ->
+     In (i * rs) (map fst tr) \/ exists st, (st = st0 \/ In st (map snd tr)) /\ is_R cs st0 (i * rs) st).
+Proof. intros cs hs rs sc D st0 H1 H2 H3 H4 D' f tr sf H. exact (rule_set_exact cs hs rs sc D st0 H1 H2 H3 H4 D' f tr sf H). Qed.
+Theorem C04_rule_set_total : forall cs hs rs sc D st0, 0 < rs -> 0 < hs -> (forall x, In x cs -> 0 < x_thr x) -> StronglySorted R_id cs ->
+  0 < D -> D mod hs = 0 ->
+  exists f tr sf, steps f (gr cs hs rs sc D st0) D (init_state (gr cs hs rs sc D st0)) = Some (tr, sf) /\ s_prev sf = D /\
+    (forall e, In e tr -> is_R cs st0 (fst e / rs * rs) (snd e)) /\
+    (forall i, 0 <= i -> i * rs <= D ->
+       In (i * rs) (map fst tr) \/ exists st, (st = st0 \/ In st (map snd tr)) /\ is_R cs st0 (i * rs) st).
+Proof. intros cs hs rs sc D st0 H1 H2 H3 H4 H5 H6. exact (rule_set_total cs hs rs sc D st0 H1 H2 H3 H4 H5 H6). Qed.
+(* non-vacuity: rule step 900 s, hydraulic step 3600 s; a priority-1 "open" rule (thr 2000) is overridden from 2700 on by a priority-5
+   "close" rule (thr 1000, acts at 1800) on link 0; on link 1 two rules of equal priority become true together at 4500: the later registered wins *)
+Example C04_rule_set_run :
+  let c := fun th p l v => {| a_thr := th; a_prio := p; a_link := l; a_val := v |} in
+  let cs := [(0%nat, c 2000 1 0%nat true); (1%nat, c 1000 5 0%nat false); (2%nat, c 4000 3 1%nat true); (3%nat, c 4400 3 1%nat false)] in
+  option_map fst (steps 20 (gr cs 3600 900 0 7200 [true; true]) 7200 (init_state (gr cs 3600 900 0 7200 [true; true])))
+  = Some [(0, [true; true]); (1800, [false; true]); (3600, [false; true]); (4500, [false; false]); (7200, [false; false])].
+Proof. vm_compute. reflexivity. Qed.
+
+(* SIMPLE CONTROLS AND RULES TOGETHER: any list of AT TIME controls and any list of rules IF SYSTEM TIME >= thr THEN link := v (instants and
+   thresholds > 0; coinciding instants, priorities and shared targets allowed).  `is_M T st` (C04/Mixed.v), link by link, with K the last
+   multiple of the rule step <= T:  a control on the link with K <= instant <= T  ->  the winner among the controls reached (latest
+   instant, priority, registration);  otherwise a rule on the link true at K  ->  the winner among the true rules (priority, registration;
+   rules are re-applied at every rule instant and override older controls; at a coinciding instant the controls are applied after the
+   rules);  otherwise the winner among the controls reached, or the initial status.
+   Every solved step satisfies it at its own time, and at EVERY time T' up to the end of the run the specification gives the statuses of
+   the latest solved step at or before T' (`status_at`): no instant at which anything changes is stepped over, whether on or off the
+   hydraulic and rule grids.  The run exists and ends at the duration.  The proof follows the presolve loop through its three branches
+   (controls first / rules and controls at one instant / rules first) over the list the two stable sorts produce. *)
+Theorem C04_mixed_exact : forall cs rl hs rs sc D st0, 0 < rs -> 0 < hs -> (forall x, In x cs -> 0 < x_thr x) -> (forall x, In x rl -> 0 < x_thr x) ->
+  StronglySorted R_id cs -> StronglySorted R_id rl ->
+  forall D' f tr sf, steps f (gm cs rl hs rs sc D st0) D' (init_state (gm cs rl hs rs sc D st0)) = Some (tr, sf) ->
+  (forall e, In e tr -> is_M cs rl rs st0 (fst e) (snd e)) /\
+  (forall T', -1 <= T' <= s_prev sf -> is_M cs rl rs st0 T' (status_at st0 tr T')).
+Proof. intros cs rl hs rs sc D st0 H1 H2 H3 H4 H5 H6 D' f tr sf H. exact (mixed_exact cs rl hs rs sc D st0 H1 H2 H3 H4 H5 H6 D' f tr sf H). Qed.
+Theorem C04_mixed_total : forall cs rl hs rs sc D st0, 0 < rs -> 0 < hs -> (forall x, In x cs -> 0 < x_thr x) -> (forall x, In x rl -> 0 < x_thr x) ->
+  StronglySorted R_id cs -> StronglySorted R_id rl -> 0 < D -> D mod hs = 0 ->
+  exists f tr sf, steps f (gm cs rl hs rs sc D st0) D (init_state (gm cs rl hs rs sc D st0)) = Some (tr, sf) /\ s_prev sf = D /\
+    (forall e, In e tr -> is_M cs rl rs st0 (fst e) (snd e)) /\
+    (forall T', -1 <= T' <= D -> is_M cs rl rs st0 T' (status_at st0 tr T')).
+Proof. intros cs rl hs rs sc D st0 H1 H2 H3 H4 H5 H6 H7 H8. exact (mixed_total cs rl hs rs sc D st0 H1 H2 H3 H4 H5 H6 H7 H8). Qed.
+(* non-vacuity: rule step 900 s; a rule (thr 1500, acts at 1800) closes link 0; a control opens it at 2000; the rule closes it again at the next
+   rule instant 2700; a control at exactly 3600 (a rule instant) opens it after the rules of that instant, the rules close it again at 4500 *)
+Example C04_mixed_run :
+  let c := fun th p l v => {| a_thr := th; a_prio := p; a_link := l; a_val := v |} in
+  let cs := [(0%nat, c 2000 3 0%nat true); (1%nat, c 3600 3 0%nat true)] in
+  let rl := [(0%nat, c 1500 3 0%nat false)] in
+  option_map fst (steps 30 (gm cs rl 3600 900 0 7200 [true]) 7200 (init_state (gm cs rl 3600 900 0 7200 [true])))
+  = Some [(0, [true]); (1800, [false]); (2000, [true]); (2700, [false]); (3600, [true]); (4500, [false]); (7200, [false])].
+Proof. vm_compute. reflexivity. Qed.
+
 Print Assumptions C04_simtime_eq_fires_iff.
 Print Assumptions C04_simtime_le_exact_partial.
 Print Assumptions C04_clock_eq_daily_refuted.
@@ -165,6 +253,12 @@ Print Assumptions C04_window_exact.
 Print Assumptions C04_window_total.
 Print Assumptions C04_at_time_set_exact.
 Print Assumptions C04_at_time_set_total.
+Print Assumptions C04_at_time_all_exact.
+Print Assumptions C04_at_time_all_total.
+Print Assumptions C04_rule_set_exact.
+Print Assumptions C04_rule_set_total.
+Print Assumptions C04_mixed_exact.
+Print Assumptions C04_mixed_total.
 Print Assumptions C04_at_time_fires_exactly.
 Print Assumptions C04_at_time_silent_otherwise.
 Print Assumptions C04_clock_control_daily_refuted.
